@@ -10,7 +10,8 @@ PROP = {'streams': [('c17', 1000, 100000)],
          'difference classified per policy (typed False in the request environment / template slot, confirmed by inlining the slot value / '
          'UNEXPLAINED); per policy and request type the manifest of the singleton set vs the model analysis of the typed AST; per world 3 slices vs '
          'the model slicer, and the model slice vs the specification assumed by the soundness theorem; non-trivial = distinct (policy, request type, '
-         'non-empty trie) and distinct (trie, sliced store)',
+         'non-empty trie) and distinct (trie, sliced store)'
+         '; 1/3 of the worlds are the chain worlds of gen_schema_chain.rs with dense stores; additional stress family in-prefix: several `in` tests on one left entity whose right-hand sides are prefix-related attribute paths (x in r.a.b || x in r.a, both orders, &&, if, set forms x in [r.a.b, r.a], three-step prefixes); plus 14 prefix-path probe sets over a folder tree (User/Doc in Folder, Folder.parent) x 32 requests',
  'theorems': ['slice_monotone',
               'slice_preserves_requested',
               'manifest_sound_partial',
